@@ -275,7 +275,10 @@ def run_query(sc, q, args):
             else:
                 res['witness_missing'].append(name)
             continue
-        if st == 'FAILURE':
+        if st == 'FAILURE' and desc.startswith('same object violation'):
+            # relational comparison of pointers into different objects: standard-level UB no sanitizer can confirm; informational
+            res.setdefault('unconfirmable_ub', []).append('%s line %s: %s' % (r.get('sourceLocation', {}).get('function'), r.get('sourceLocation', {}).get('line'), desc[:120]))
+        elif st == 'FAILURE':
             fails.append(r)
         elif st not in ('SUCCESS',):
             res['notes'].append('obligation %s status %s' % (r.get('property'), st))
@@ -408,6 +411,7 @@ def cmd_check(args):
             'solver_s': round(sum(r['solver_s'] for r in results), 2),
             'sat_vars_max': max([r.get('sat_vars', 0) for r in results] or [0]),
             'source_hashes': sc.hashes,
+            'unconfirmable_ub': sorted(set(sum([r.get('unconfirmable_ub', []) for r in results], []))),
             'inconclusive': [{'query': r['id'], 'status': r['status'], 'notes': r['notes'][:2], 'failed': r['failed'][:3], 'witness_missing': r['witness_missing']} for r in problems],
             'known_findings': [k['text'] for k, v in known_hit],
             'explanation': meta.get('explanation', ''),
